@@ -155,6 +155,6 @@ Example valid_protects_encoder_ex :
   (let t := {| t_nullable := false; t_schema :=
                 SObj None [([111], {| p_index := 0; p_default := None |},
                             SObj (Some []) [([97], {| p_index := 0; p_default := None |},
-                                             SLeaf TInteger (Some (BInt Ii)) false)])] |} in
+                                             SLeaf TInteger (Some (BInt Ii)) 0%nat)])] |} in
    construct t = CAccept /\ shape_ok (modify (t_schema t)) = false).
 Proof. vm_compute. auto. Qed.
